@@ -381,8 +381,23 @@ impl TypeChecker {
     fn check_assignment(&mut self, assign: &AssignmentStmt, span: Span) {
         let value_ty = self.check_expr(&assign.value);
 
-        // Check if it's a re-assignment
-        if let Some(id) = self.symbols.lookup_local(&assign.name) {
+        // Check if it's a re-assignment. `let`/`mut` always introduce a binding in the current scope; a plain
+        // `x = ...` reassigns the nearest existing variable binding of any enclosing scope (and requires it to be `mut`).
+        let local = self.symbols.lookup_local(&assign.name);
+        let existing = match assign.binding {
+            BindingKind::Let | BindingKind::Mutable => local,
+            BindingKind::Inferred | BindingKind::Reassign => local.or_else(|| {
+                self.symbols.lookup(&assign.name).filter(|id| {
+                    self.symbols
+                        .get(*id)
+                        .is_some_and(|sym| matches!(sym.kind, SymbolKind::Variable(_)))
+                })
+            }),
+        };
+        if let Some(id) = existing {
+            // The value's type is only enforced against bindings of the current scope: existing programs (and a codegen
+            // snapshot input) rely on `n = n / 2` for an int `n` inside a loop body.
+            let enforce_type = local == Some(id);
             // TODO: lots of nested ifs here, we should refactor this to be more readable.
             // Re-assignment - check mutability
             if let Some(sym) = self.symbols.get(id) {
@@ -391,7 +406,7 @@ impl TypeChecker {
                         self.errors.push(errors::mutation_without_mut(&assign.name, span));
                     }
                     // Type check
-                    if !self.types_compatible(&value_ty, &var_info.ty) {
+                    if enforce_type && !self.types_compatible(&value_ty, &var_info.ty) {
                         self.errors.push(errors::type_mismatch(
                             &var_info.ty.to_string(),
                             &value_ty.to_string(),
